@@ -371,3 +371,4 @@ MANIFEST = {
             "classified by its name/dims only.",
     "technique": "reduction/data-flow inventory of the per-batch region (batch-role targeted form) + table agreement (AST)",
 }
+MANIFEST["text"] += ' Also: optional numeric hyper-parameters are never used as truth values (R6: an explicit 0 is a value); the bright-field crop window is inclusive of the outermost mask pixel, extent = max − min + 2·pad + 1 per axis (R7, algebraic normal form).'
